@@ -728,7 +728,7 @@ def _k10_eval(prog, n, lo, hi):
             ok += 1
         if len(bad) > 40:
             break
-    return ok, bad, ce.steps
+    return ok, bad, ce.steps, sorted(ce.touched | {gc.module.rel})
 
 
 def _k10_exhaustive(rep, flow, tier, comp, dec):
@@ -743,9 +743,21 @@ def _k10_exhaustive(rep, flow, tier, comp, dec):
         jobs += [(n, lo, min(total, lo + step)) for lo in range(0, total, step)]
     if nmax == 5:
         jobs += [(6, 1 << k, (1 << k) + 1) for k in range(15)]
-    import concurrent.futures
-    with concurrent.futures.ProcessPoolExecutor(max_workers=16) as ex:
-        results = list(ex.map(_k10_chunk, [(flow.tree.root, flow.tree.overlay) + j for j in jobs]))
+    def compute():
+        import os
+        if os.environ.get("SA_NO_POOL"):
+            results = [_k10_eval(prog, *j) for j in jobs]
+        else:
+            import concurrent.futures
+            with concurrent.futures.ProcessPoolExecutor(max_workers=16) as ex:
+                results = list(ex.map(_k10_chunk, [(flow.tree.root, flow.tree.overlay) + j for j in jobs]))
+        deps = set()
+        out = []
+        for (ok, bad, st, touched) in results:
+            deps |= set(touched)
+            out.append([ok, [list(b) for b in bad], st])
+        return out, deps
+    results = _memo(f"K10x:{nmax}", flow.tree, compute)
     steps = 0
     for (ok, bad, st) in results:
         steps += st
@@ -844,7 +856,43 @@ def _k12_eval(prog, n, lo, hi):
                     ok += 1
                     if sample is None:
                         sample = f"{nm}({v}) on {edges} (n={n}): -> {sorted(want)}"
-    return ok, bad, sample, ce.steps
+    return ok, bad, sample, ce.steps, sorted(ce.touched | {gc.module.rel})
+
+
+def _memo(tag, tree, compute):
+    """Results of the exhaustive evaluations are a function of the text of the modules the evaluator consulted.  Within
+    one self-test run (SA_EVAL_CACHE names a scratch directory created and removed by the self-test driver) a result
+    is reused for every overlay that leaves those modules untouched.  compute() -> (json-able result, [consulted rels])"""
+    import hashlib
+    import json
+    import os
+    d = os.environ.get("SA_EVAL_CACHE")
+    if not d or not os.path.isdir(d):
+        return compute()[0]
+
+    def dig(rels):
+        h = hashlib.sha256()
+        for r in rels:
+            h.update(r.encode())
+            h.update(tree.read(r).encode() if tree.exists(r) else b"<absent>")
+        return h.hexdigest()
+    safe = hashlib.sha256(tag.encode()).hexdigest()[:12]
+    for fn in sorted(os.listdir(d)):
+        if fn.startswith(safe + "-") and fn.endswith(".json"):
+            try:
+                e = json.load(open(os.path.join(d, fn)))
+            except (OSError, ValueError):
+                continue
+            if dig(e["deps"]) == e["digest"]:
+                return e["result"]
+    res, deps = compute()
+    deps = sorted(deps)
+    e = {"deps": deps, "digest": dig(deps), "result": res}
+    tmp = os.path.join(d, f".{safe}-{os.getpid()}.tmp")
+    with open(tmp, "w") as fh:
+        json.dump(e, fh)
+    os.replace(tmp, os.path.join(d, f"{safe}-{e['digest'][:16]}.json"))
+    return res
 
 
 def K12_local_complementation(rep, flow: Flow, tier):
@@ -865,11 +913,23 @@ def K12_local_complementation(rep, flow: Flow, tier):
             jobs += [(n, lo, min(total, lo + step)) for lo in range(0, total, step)]
     small = [j for j in jobs if j[0] <= 4]
     big = [j for j in jobs if j[0] > 4]
-    results = [_k12_eval(prog, *j) for j in small]
-    if big:
-        import concurrent.futures
-        with concurrent.futures.ProcessPoolExecutor(max_workers=16) as ex:
-            results += list(ex.map(_k12_chunk, [(flow.tree.root, flow.tree.overlay) + j for j in big]))
+
+    def compute():
+        import os
+        results = [_k12_eval(prog, *j) for j in small]
+        if big and os.environ.get("SA_NO_POOL"):
+            results += [_k12_eval(prog, *j) for j in big]       # already inside a worker of the self-test pool
+        elif big:
+            import concurrent.futures
+            with concurrent.futures.ProcessPoolExecutor(max_workers=16) as ex:
+                results += list(ex.map(_k12_chunk, [(flow.tree.root, flow.tree.overlay) + j for j in big]))
+        deps = set()
+        out = []
+        for (ok, bad, sample, st, touched) in results:
+            deps |= set(touched)
+            out.append([ok, [list(b) for b in bad], sample, st])
+        return out, deps
+    results = _memo(f"K12:{nmax}", flow.tree, compute)
     for (ok, bad, sample, st) in results:
         steps += st
         if ok:
